@@ -12,7 +12,7 @@ if [ "$patch" != "-" ]; then git -C $wt apply "$patch" || { echo "patch does not
 # private copy of the harness sources: the generated manifests point at this slot's worktree
 rsync -a --delete --exclude target --exclude artifacts --exclude corpus /verif/harness/ $base/harness/
 for id in "$@"; do
-  out=$(cd /verif && VERIF_REPO=$wt VERIF_HARNESS=$base/harness VERIF_TARGET=$base/target VERIF_OUT_DIR=$base/out ./check "$id" 2>$base/err.txt); code=$?
+  out=$(cd /verif && VERIF_REPO=$wt VERIF_HARNESS=$base/harness VERIF_TARGET=$base/target VERIF_OUT_DIR=$base/out ./check "$id" ${SLOT_ARGS:-} 2>$base/err.txt); code=$?
   echo "== $id exit=$code"; echo "$out" | grep -E "VIOLATION|KNOWN|OK |INCONCLUSIVE" | head -5
   grep -E "^\[check\] $id:" -A1 $base/err.txt | head -6 | cut -c1-300
 done
